@@ -36,7 +36,7 @@ func TestNodeInfoEncode(tt *testing.T) {
 		{Hint: base.DummyManifestHint, Instance: base.DummyManifest{}},
 		{Hint: isaac.FixedSuffrageCandidateLimiterRuleHint, Instance: isaac.FixedSuffrageCandidateLimiterRule{}},
 		{Hint: isaac.NetworkPolicyHint, Instance: isaac.NetworkPolicy{}},
-		{Hint: isaac.ParamsHint, Instance: isaac.Params{}},
+		{Hint: isaac.ParamsHint, Instance: &isaac.Params{}},
 		{Hint: NodeInfoHint, Instance: NodeInfo{}},
 	}
 	for i := range hints {
